@@ -11,6 +11,8 @@
 #include "awkward/type/Type.h"
 #include "awkward/builder/ArrayBuilder.h"
 #include "awkward/builder/ArrayBuilderOptions.h"
+#include "awkward/layoutbuilder/LayoutBuilder.h"
+#include "awkward/array/RecordArray.h"
 #include "awkward/io/json.h"
 #include "awkward/forth/ForthMachine.h"
 #include "awkward/forth/ForthInputBuffer.h"
@@ -152,6 +154,56 @@ static std::string builder_run(const JV& st) {
   out += "],\"immutable\":";
   bool same = true; std::string diff;
   for (size_t i = 0; i < snaps.size(); i++) {
+    std::string again;
+    try { again = snapjson(snaps[i]); } catch (std::exception& e) { again = std::string("EXC ") + e.what(); }
+    if (again != snaptext[i]) { same = false; diff = "snapshot " + std::to_string(i) + " was " + snaptext[i] + " now " + again; break; }
+  }
+  out += same ? "1" : "0";
+  if (!same) out += ",\"diff\":" + jstr(diff);
+  return out + "}";
+}
+
+// ------------------------------------------------------------------ LayoutBuilder (Form-driven; C14)
+static std::string layoutbuilder_run(const JV& st) {
+  ak::FormPtr form = ak::Form::fromjson(gets(st, "form", ""));
+  int64_t initial = geti(st, "initial", 1024);
+  ak::LayoutBuilder b(form, ak::ArrayBuilderOptions(initial, 1.5), true);
+  std::vector<ak::ContentPtr> snaps;
+  std::vector<std::string> snaptext;
+  std::string out = "{\"ok\":1,\"steps\":[";
+  bool first = true;
+  for (auto& c : need(st, "cmds").GetArray()) {
+    std::string r;
+    try {
+      std::string k = gets(c, "c", "");
+      if (k == "null") b.null();
+      else if (k == "bool") b.boolean(geti(c, "x", 0) != 0);
+      else if (k == "int") b.int64(geti(c, "x", 0));
+      else if (k == "real") b.float64((double)geti(c, "n", 0) / (double)geti(c, "d", 1));
+      else if (k == "str") b.string(gets(c, "x", ""));
+      else if (k == "bytes") b.bytestring(gets(c, "x", ""));
+      else if (k == "beginlist") b.begin_list();
+      else if (k == "endlist") b.end_list();
+      else if (k == "tag") b.tag((int8_t)geti(c, "i", 0));
+      else if (k == "index") b.index(geti(c, "i", 0));
+      else if (k != "snapshot") throw HarnessError("layoutbuilder command " + k);
+      ak::ContentPtr s = b.snapshot();
+      std::string v = first_line(s->validityerror("layout"));
+      std::string js = v.empty() ? snapjson(s) : std::string("null");
+      snaps.push_back(s); snaptext.push_back(js);
+      r = "{\"ok\":1,\"len\":" + std::to_string((long long)s->length()) + ",\"json\":" + jstr(js)
+        + ",\"type\":" + jstr(s->type(default_typestrs())->tostring())
+        + ",\"formsame\":" + std::string(b.form()->equal(form, true, true, true, true) ? "1" : "0")
+        + ",\"valid\":" + jstr(v) + "}";
+    }
+    CATCH_ALL(r)
+    out += (first ? "" : ",") + r; first = false;
+    if (r.compare(0, 7, "{\"ok\":1") != 0) break;
+  }
+  out += "],\"immutable\":";
+  bool same = true; std::string diff;
+  for (size_t i = 0; i < snaps.size(); i++) {
+    if (snaptext[i] == "null") continue;
     std::string again;
     try { again = snapjson(snaps[i]); } catch (std::exception& e) { again = std::string("EXC ") + e.what(); }
     if (again != snaptext[i]) { same = false; diff = "snapshot " + std::to_string(i) + " was " + snaptext[i] + " now " + again; break; }
@@ -549,6 +601,7 @@ static std::string forth_run_T(const JV& st) {
 bool other_ops(const std::string& op, const JV& st, Session& S, std::string& out) {
   try {
     if (op == "builder_run") { out = builder_run(st); return true; }
+    if (op == "layoutbuilder_run") { out = layoutbuilder_run(st); return true; }
     if (op == "json_parse") { out = json_parse(st, S); return true; }
     if (op == "json_write") { out = json_write(st, S); return true; }
     if (op == "virtual_run") { out = virtual_run(st, S); return true; }
